@@ -33,6 +33,10 @@ func init() {
 		Level:       "held on every executed case: complete enumeration of all slices up to length 5 (thorough 6) over {0,1,2}, all pairs (<=4, <=3) and triples (<=3) for the multi-argument functions, four key functions incl. a non-idempotent one, a bounded family of Union nestings up to depth 3 incl. malformed ones, plus seeded random inputs over int/string/float64; results compared with independent quadratic references",
 		Technique:   "differential monitor against independent quadratic references + defining-property checkers",
 		Assumptions: []string{"the reference implementations are trusted", "IntersectionBy/DifferenceBy duplicate handling is read leniently (see DESIGN C11 'Not asserted')", "Intersection with zero arguments is outside the domain"}})
+	reg(&propCfg{ID: "C12", Pkg: "./props/c12", Variants: simple(false),
+		Level:       "held on every executed case: complete enumeration of all slices up to length 7 (thorough 9) over {0,1,2} x chunk sizes 1..8 x drop counts -9..9 x six predicates x three group keys, all square matrices up to 3x3 over 2 values, a bounded family of nestings up to depth 3, all strings of <=4 runes over a 5-rune alphabet, plus seeded random larger inputs; checked against reference implementations, identities and callback logs",
+		Technique:   "differential monitor against reference implementations + round-trip identities + logging callbacks",
+		Assumptions: []string{"the references are trusted", "Chunk with size <= 0 and Zip/Unzip on non-square input panic by documentation and are not judged", "Shuffle is only required to return a permutation"}})
 	reg(&propCfg{ID: "C04", Pkg: "./props/c04", Variants: simple(false),
 		Technique:   "reference-model trace monitor (map model) over systematic small-scope sweep + seeded random sequences",
 		Assumptions: []string{"the map model and the generators are trusted", "single goroutine; concurrency is C01/C02"}})
